@@ -224,19 +224,33 @@ def rule_point_sampling(ctx, cfg, prog):
     ctx.floor('sample_random_generator instantiations[%s]' % cfg, len(fs), 2)
     for f in fs:
         lps = loops_of(f, kinds=('do', 'while'))
-        ctx.require(len(lps) == 2, '%s: expected an outer and an inner loop' % f['qn'])
-        outer = [l for d, l in lps if d == 0][0]
-        inner = [l for d, l in lps if d == 1][0]
         tag = f['qn'].split('<')[1][:30]
-        check_point_loop(ctx, cfg, prog, f, inner, 'reject|point|' + tag)
+        # loops are identified by role (what their condition tests), not by nesting position
+        inner = [l for d, l in lps if any(c['name'] == 'get_point_from_x' for c in pr.calls(l['c']))]
+        outer = [l for d, l in lps if any(c['name'] == 'is_zero' for c in pr.calls(l['c']))]
+        ctx.ob('R-REJECT', len(inner) == 1, 'reject|point|' + tag + '|present', loc_str(f),
+               '%s has no (single) loop that redraws x until get_point_from_x finds a curve point' % f['qn'], cfg=cfg)
+        if len(inner) == 1:
+            check_point_loop(ctx, cfg, prog, f, inner[0], 'reject|point|' + tag)
         # outer: continue exactly while the result is the identity
-        z = [c for c in pr.calls(outer['c']) if c['name'] == 'is_zero']
-        ok = len(z) == 1 and cond_with_call_value(outer['c'], z[0], 1) == 1 and cond_with_call_value(outer['c'], z[0], 0) == 0 and \
-            pr.canon(z[0]['this']).startswith('P:') and not [x for x in walk(outer['body']) if x.get('k') in ('return',)]
-        ctx.ob('R-REJECT', ok, 'reject|nonidentity|' + tag, loc_str(outer),
-               '%s must retry while the cofactor-cleared result is the identity' % f['qn'], cfg=cfg)
-        cof = [c for c in pr.calls(outer['body']) if c['name'].startswith('multiply') and any('cofactor' in pr.canon(a) for a in c['args'])]
-        ctx.ob('R-REJECT', len(cof) == 1 and pr.canon(cof[0]['this']).startswith('P:'), 'reject|cofactor|' + tag, loc_str(outer),
+        if len(outer) != 1:
+            ctx.ob('R-REJECT', False, 'reject|nonidentity|' + tag, loc_str(f),
+                   '%s must retry while the cofactor-cleared result is the identity: no loop conditioned on result.is_zero() exists, so a '
+                   'sampled point of order dividing the cofactor yields the identity' % f['qn'], cfg=cfg)
+            scope = f['body']
+        else:
+            outer = outer[0]
+            scope = outer['body']
+            z = [c for c in pr.calls(outer['c']) if c['name'] == 'is_zero']
+            ok = len(z) == 1 and cond_with_call_value(outer['c'], z[0], 1) == 1 and cond_with_call_value(outer['c'], z[0], 0) == 0 and \
+                pr.canon(z[0]['this']).startswith('P:') and not [x for x in walk(outer['body']) if x.get('k') in ('return',)]
+            if ok and len(inner) == 1:
+                # the redraw and the cofactor clearing are inside the retried region
+                ok = any(x is inner[0] for x in walk(outer['body']))
+            ctx.ob('R-REJECT', ok, 'reject|nonidentity|' + tag, loc_str(outer),
+                   '%s must retry (redraw and clear the cofactor again) while the cofactor-cleared result is the identity' % f['qn'], cfg=cfg)
+        cof = [c for c in pr.calls(scope) if c['name'].startswith('multiply') and any('cofactor' in pr.canon(a) for a in c['args'])]
+        ctx.ob('R-REJECT', len(cof) == 1 and pr.canon(cof[0]['this']).startswith('P:'), 'reject|cofactor|' + tag, loc_str(f),
                '%s must clear the cofactor of the sampled curve point into the result' % f['qn'], cfg=cfg)
     fs = pr.functions_named(prog, NS + 'Affine::try_and_increment')
     ctx.floor('try_and_increment instantiations[%s]' % cfg, len(fs), 1)
@@ -256,11 +270,33 @@ def rule_powers_of_x(ctx, cfg, prog):
     ctx.require(len(fs) == 1, 'PowersOfX::random not found')
     f = fs[0]
     lps = loops_of(f, kinds=('do', 'while'))
-    ctx.require(len(lps) == 2, 'PowersOfX::random: expected an outer and an inner rejection loop')
-    outer = [l for d, l in lps if d == 0][0]
-    inner = [l for d, l in lps if d >= 1][0]
-    check_compare_loop(ctx, cfg, prog, f, inner, abs(bls.X), '|x|', 'reject|powers|digit')
-    check_compare_loop(ctx, cfg, prog, f, outer, bls.R_ORDER, 'r', 'reject|powers|y')
+    # rejection loops are identified by role: the constant their condition compares the sample with
+
+    def cmp_mod(l):
+        for c in pr.calls(l['c']):
+            if c['name'] == 'compare' and len(c['args']) > 1:
+                return global_int(prog, c['args'][1])
+        return None
+    digit = [l for d, l in lps if cmp_mod(l) == abs(bls.X)]
+    whole = [l for d, l in lps if cmp_mod(l) == bls.R_ORDER]
+    other = [l for d, l in lps if not any(l is y for y in digit + whole) and any(c['name'] == 'compare' for c in pr.calls(l['c']))]
+    if len(digit) == 1:
+        check_compare_loop(ctx, cfg, prog, f, digit[0], abs(bls.X), '|x|', 'reject|powers|digit')
+    else:
+        ctx.ob('R-REJECT', False, 'reject|powers|digit', loc_str(f),
+               'PowersOfX::random: no (single) rejection loop keeps each base-|x| digit below |x| (%d loops compare with |x|): digits in [|x|, 2^64) '
+               'give one y several representations, so y is not uniform on [0, r)' % len(digit), cfg=cfg)
+    if len(whole) == 1:
+        check_compare_loop(ctx, cfg, prog, f, whole[0], bls.R_ORDER, 'r', 'reject|powers|y')
+    else:
+        ctx.ob('R-REJECT', False, 'reject|powers|y', loc_str(f),
+               'PowersOfX::random: no (single) rejection loop keeps y below r (%d loops compare with r)' % len(whole), cfg=cfg)
+    for l in other:
+        check_compare_loop(ctx, cfg, prog, f, l, None, 'a recognised modulus (|x| or r)', 'reject|powers|other@' + loc_str(l))
+    outer = whole[0] if len(whole) == 1 else dict(body=f['body'])
+    if len(digit) == 1 and len(whole) == 1:
+        ctx.ob('R-REJECT', any(x is digit[0] for x in walk(whole[0]['body'])), 'reject|powers|nesting', loc_str(whole[0]),
+               'PowersOfX::random: the digits must be redrawn inside the y >= r retry loop', cfg=cfg)
     # all four digits are drawn: the digit loop covers [0, extent of c)
     fors = [x for x in walk(outer['body']) if x.get('k') == 'for']
     ext = [fl['t'].get('n') for fl in prog.records[NS + 'PowersOfX']['fields'] if fl['name'] == 'c'][0]
